@@ -259,10 +259,16 @@ Qed.
 
 Definition ids (h : header) : list Z := map eid (extensions h).
 
+(* what SetExtension admits in the one-byte profile: ids 1-14 (the decoder's id 0 is not reachable
+   through the accessors); it implies C01's wf_ext1 *)
+Definition wf_ext1s (e : ext) : Prop := 1 <= eid e <= 14 /\ 1 <= zlen (epayload e) <= 16.
+Lemma wf_ext1s_weak e : wf_ext1s e -> wf_ext1 e.
+Proof. unfold wf_ext1s, wf_ext1. lia. Qed.
+
 Definition exts_inv (h : header) : Prop :=
   extension h = true ->
   NoDup (ids h) /\ 0 <= extension_profile h < 65536 /\
-  if extension_profile h =? profile_one_byte then Forall wf_ext1 (extensions h)
+  if extension_profile h =? profile_one_byte then Forall wf_ext1s (extensions h)
   else if extension_profile h =? profile_two_byte then Forall wf_ext2 (extensions h)
   else Forall (fun e => eid e = 0) (extensions h).
 
@@ -341,7 +347,7 @@ Proof.
       destruct (extension_profile h =? profile_one_byte) eqn:E1.
       * destruct ((id <? 1) || (14 <? id)) eqn:Ea; [cbn [fst]; intros _; rewrite E1; auto|].
         destruct ((zlen v =? 0) || (16 <? zlen v)) eqn:Eb; [cbn [fst]; intros _; rewrite E1; auto|].
-        destruct (upd_inv wf_ext1 id v (extensions h) Hnd Hall ltac:(unfold wf_ext1; cbn [eid epayload]; lia)) as [U1 U2].
+        destruct (upd_inv wf_ext1s id v (extensions h) Hnd Hall ltac:(unfold wf_ext1s; cbn [eid epayload]; lia)) as [U1 U2].
         destruct (set_existing id v (extensions h)); cbn [fst]; intros _; unfold ids;
           cbn [extensions extension_profile with_exts]; rewrite E1; auto.
       * destruct (extension_profile h =? profile_two_byte) eqn:E2.
@@ -359,7 +365,7 @@ Proof.
       * cbn [fst]. intros _. unfold ids. cbn [extensions extension_profile with_exts map eid].
         change (profile_one_byte =? profile_one_byte) with true. cbv iota.
         repeat split; try (unfold profile_one_byte; lia); [repeat constructor; intros []|].
-        constructor; [unfold wf_ext1; cbn [eid epayload]; lia|constructor].
+        constructor; [unfold wf_ext1s; cbn [eid epayload]; lia|constructor].
       * destruct ((zlen v <? 256) && (1 <=? id)) eqn:Eb.
         -- cbn [fst]. intros _. unfold ids. cbn [extensions extension_profile with_exts map eid].
            change (profile_two_byte =? profile_one_byte) with false.
@@ -398,7 +404,7 @@ Proof.
   pose proof (NoDup_incl_length Hnd Hincl) as Hl. rewrite map_length, seq_length in Hl. unfold zlen. lia.
 Qed.
 
-Lemma body1_bound es : Forall wf_ext1 es -> zlen (enc_items false (items_of es)) <= 17 * zlen es.
+Lemma body1_bound es : Forall wf_ext1s es -> zlen (enc_items false (items_of es)) <= 17 * zlen es.
 Proof.
   induction 1 as [|e es [Hid Hlen] _ IH]; [cbn; lia|].
   cbn [items_of map]. rewrite enc_items_cons, zlen_app. cbn [enc_item1]. rewrite !zlen_cons. fold (items_of es). lia.
@@ -427,7 +433,7 @@ Proof.
   unfold wf_header. repeat (split; [assumption|]). unfold wf_exts. rewrite Hx.
   destruct Hp as [Hp|Hp]; rewrite Hp in *.
   - change (profile_one_byte =? profile_one_byte) with true in Hall. cbv iota in Hall.
-    split; [left; split; [reflexivity|assumption]|].
+    split; [left; split; [reflexivity|eapply Forall_impl; [|exact Hall]; apply wf_ext1s_weak]|].
     unfold ext_block_size. rewrite Hp. change (profile_one_byte =? profile_one_byte) with true. cbv iota.
     rewrite fold_size_one. pose proof (body1_bound _ Hall) as Hb.
     assert (Hlen : zlen (map eid (extensions h)) <= 14).
